@@ -468,11 +468,14 @@ def run(chk):
                     pass
         return env
 
-    def throws_under(t, env, depth=0):
+    def throws_under(t, env, depth=0, stack=()):
         """can t throw when its parameters are bound as in env (constants only)?  Unknown -> True"""
         k = (t.key, t.sig)
+        if k in stack:
+            return False        # a recursive call throws only if something else in the function does
         if depth > 4:
             return True
+        stack = stack + (k,)
         # members initialised from bound parameters in a constructor's initialiser list are known as well
         menv = {}
         for ini in t.d.get("inits", []) or []:
@@ -520,7 +523,7 @@ def run(chk):
             if id(c2) not in init_ids and env and dead(c2):
                 continue
             for t2 in P2.targets(t, c2):
-                if may_throw(t2) and throws_under(t2, bind(t2, c2, env, t), depth + 1):
+                if may_throw(t2) and throws_under(t2, bind(t2, c2, env, t), depth + 1, stack):
                     return True
         return False
 
